@@ -6,7 +6,7 @@
   real     every scenario runs twice in separate worker processes: NUMBA_BOUNDSCHECK=1 (numba's own
            checker, set before numba is imported) and unchecked.
   verdict  RelTrace facts: no_index_error (the checked run raises nothing the unchecked run does not),
-           same_result (coefficients, stopping value and history agree).
+           same_result (final objective and, for equally long runs, the history agree).
 """
 import json
 import os
@@ -160,17 +160,27 @@ def run(prop, tier, seed):
 
 
 def _same(a, b):
+    """The two runs are different compilations of the same kernels (bounds checking disables some vectorisation), so
+    their floats may differ in the last bits; on data with exact ties this can move a stopping test by one
+    iteration. Same result = same final objective, and the same history when the number of iterations is the same.
+    (Memory read outside an array shows up as an IndexError of the checked run -- clause no_index_error -- or as a
+    grossly different trajectory.)"""
     try:
-        if a["nobj"] != b["nobj"]:
+        fa, fb = float(a["obj"]), float(b["obj"])
+        if np.isfinite(fa) != np.isfinite(fb):
             return False
-        x = np.array([a["crit"], a["obj"]] + list(a["objs"]), dtype=float)
-        y = np.array([b["crit"], b["obj"]] + list(b["objs"]), dtype=float)
-        if x.shape != y.shape:
+        if np.isfinite(fa) and abs(fa - fb) > 1e-7 * max(1.0, abs(fa)) + 1e-10:
             return False
-        m = np.isfinite(x) & np.isfinite(y)
-        if not np.array_equal(np.isfinite(x), np.isfinite(y)):
+        if abs(a["nobj"] - b["nobj"]) > 1:
             return False
-        return bool(np.allclose(x[m], y[m], rtol=1e-9, atol=1e-12))
+        if a["nobj"] == b["nobj"]:
+            x = np.array(list(a["objs"]), dtype=float)
+            y = np.array(list(b["objs"]), dtype=float)
+            if x.shape != y.shape or not np.array_equal(np.isfinite(x), np.isfinite(y)):
+                return False
+            m = np.isfinite(x)
+            return bool(np.allclose(x[m], y[m], rtol=1e-7, atol=1e-10))
+        return True
     except Exception:  # noqa: BLE001
         return False
 
